@@ -150,4 +150,41 @@ theorem emit_single (c : EncCfg) (sq : UInt16) (a : Bytes) :
     emit c sq [a] = [{ pt := c.pt, seq := sq, ssrc := c.ssrc, marker := true, payload := a }] := by
   simp [emit]
 
+/-! ### reading a result list -/
+
+/-- the frames a decoder returned, in order -/
+def okFrames {α} : List (DecRes α) → List α
+  | [] => []
+  | .ok f :: t => f :: okFrames t
+  | .more :: t => okFrames t
+  | .nonStart :: t => okFrames t
+  | .err :: t => okFrames t
+
+/-- every answer is "more packets needed" or a frame: no error of any kind -/
+def OnlyMoreOk {α} (rs : List (DecRes α)) : Prop := ∀ r ∈ rs, r = .more ∨ ∃ f, r = .ok f
+
+theorem okFrames_append {α} (a b : List (DecRes α)) : okFrames (a ++ b) = okFrames a ++ okFrames b := by
+  induction a with
+  | nil => rfl
+  | cons x t ih => cases x <;> simp [okFrames, ih]
+
+theorem okFrames_frame {α} (n : Nat) (f : α) : okFrames (List.replicate n DecRes.more ++ [DecRes.ok f]) = [f] := by
+  induction n with
+  | zero => rfl
+  | succ n ih => simpa [List.replicate_succ, okFrames] using ih
+
+theorem onlyMoreOk_frame {α} (n : Nat) (f : α) : OnlyMoreOk (List.replicate n DecRes.more ++ [DecRes.ok f]) := by
+  intro r hr
+  simp only [List.mem_append, List.mem_replicate, List.mem_singleton] at hr
+  rcases hr with ⟨_, hr⟩ | hr
+  · exact Or.inl hr
+  · exact Or.inr ⟨f, hr⟩
+
+theorem onlyMoreOk_append {α} (a b : List (DecRes α)) (ha : OnlyMoreOk a) (hb : OnlyMoreOk b) : OnlyMoreOk (a ++ b) := by
+  intro r hr
+  simp only [List.mem_append] at hr
+  rcases hr with hr | hr
+  · exact ha r hr
+  · exact hb r hr
+
 end Rtsp.Codec.Av1Vp
